@@ -37,6 +37,9 @@ Proof.
     unfold v3_dot, v3_div_by_constant, v3_sub, dot, psub. carrier_R. cbn [v3x v3y v3z].
     field. lra. }
   rewrite Et. carrier_R.
+  (* a guard `if |b-a| == 0 { return p1 }` (proposed fix for zero-length segments) is not taken when a <> b *)
+  try match goal with |- context [Reqb ?x ?y] =>
+    destruct (Reqb x y) eqn:E0; [apply Reqb_true in E0; exfalso; lra|] end.
   destruct (Rleb 1 (tproj a b p)) eqn:E1.
   - apply Rleb_true in E1. exists 1. split; [lra|]. split; [|left; split; auto].
     destruct a, b. unfold padd, smul, psub; cbn. f_equal; ring.
